@@ -102,7 +102,7 @@ def main():
     meta = {}
     try: meta = json.load(open(os.path.join(seed, "meta.json")))
     except Exception: pass
-    meta["round"] = 2 if "seedout2" in seed else meta.get("round", 1)
+    meta["round"] = 3 if "seedout3" in seed else 2 if "seedout2" in seed else meta.get("round", 1)
     meta["confirmation_by_lead"] = res
     json.dump(meta, open(os.path.join(dst, "meta.json"), "w"), indent=1)
     print(json.dumps({"seed": slug, "kept": res["kept"], "demo_clean": rc0, "demo_patched": rc1,
